@@ -1,0 +1,560 @@
+//! Verification hook (see /verif/DESIGN.md §2.4): `sentinel-core` built with
+//! `--cfg sentinel_verif_sched` declares `extern crate verif_std as std`, so every
+//! `std::sync::{Mutex, RwLock, Once, atomic::*}` and `std::thread::{yield_now, sleep}` path in it
+//! resolves to the thin wrappers below. Each wrapper operation first reports to the installed
+//! scheduler (a table of function pointers); with no scheduler installed, or on a thread the
+//! scheduler does not manage, it falls straight through to the real primitive.
+#![allow(clippy::new_without_default)]
+
+pub use ::std::*;
+
+pub mod hooks {
+    use ::std::sync::atomic::{AtomicPtr, Ordering};
+
+    #[derive(Clone, Copy, Debug, PartialEq, Eq)]
+    #[repr(u8)]
+    pub enum Op {
+        MutexLock = 0,
+        MutexTryLock,
+        MutexUnlock,
+        RwRead,
+        RwWrite,
+        RwTryRead,
+        RwTryWrite,
+        RwUnlockRead,
+        RwUnlockWrite,
+        AtomicLoad,
+        AtomicStore,
+        AtomicRmw,
+        AtomicCas,
+        Yield,
+        Sleep,
+        OnceCall,
+    }
+
+    /// Installed by the harness. All functions are called on the thread performing the operation.
+    pub struct Hooks {
+        /// a schedule point before `op` on the object at `addr`; returns when the thread may go on
+        pub point: fn(op: Op, addr: usize),
+        /// the non-blocking acquisition at `addr` failed: park this thread until `released(addr)`;
+        /// returns when the thread has been rescheduled (it then retries)
+        pub blocked: fn(op: Op, addr: usize),
+        /// the thread acquired the lock at `addr` (`exclusive` = mutex / write lock)
+        pub acquired: fn(op: Op, addr: usize, exclusive: bool),
+        /// a guard on `addr` was dropped
+        pub released: fn(op: Op, addr: usize),
+        /// is the calling thread managed by the scheduler?
+        pub managed: fn() -> bool,
+    }
+
+    static HOOKS: AtomicPtr<Hooks> = AtomicPtr::new(::std::ptr::null_mut());
+
+    pub fn install(h: &'static Hooks) {
+        HOOKS.store(h as *const Hooks as *mut Hooks, Ordering::SeqCst);
+    }
+
+    pub fn uninstall() {
+        HOOKS.store(::std::ptr::null_mut(), Ordering::SeqCst);
+    }
+
+    #[inline]
+    pub(crate) fn get() -> Option<&'static Hooks> {
+        let p = HOOKS.load(Ordering::SeqCst);
+        if p.is_null() {
+            return None;
+        }
+        let h: &'static Hooks = unsafe { &*p };
+        if (h.managed)() {
+            Some(h)
+        } else {
+            None
+        }
+    }
+}
+
+pub mod thread {
+    pub use ::std::thread::*;
+
+    pub fn yield_now() {
+        match crate::hooks::get() {
+            Some(h) => (h.point)(crate::hooks::Op::Yield, 0),
+            None => ::std::thread::yield_now(),
+        }
+    }
+
+    pub fn sleep(d: ::std::time::Duration) {
+        match crate::hooks::get() {
+            Some(h) => (h.point)(crate::hooks::Op::Sleep, d.as_nanos() as usize),
+            None => ::std::thread::sleep(d),
+        }
+    }
+}
+
+pub mod sync {
+    pub use ::std::sync::*;
+
+    use crate::hooks::{self, Op};
+    use ::std::fmt;
+    use ::std::ops::{Deref, DerefMut};
+    use ::std::sync as real;
+
+    // ------------------------------------------------------------------ Mutex
+    pub struct Mutex<T: ?Sized>(real::Mutex<T>);
+
+    pub struct MutexGuard<'a, T: ?Sized + 'a> {
+        inner: Option<real::MutexGuard<'a, T>>,
+        addr: usize,
+    }
+
+    impl<T> Mutex<T> {
+        pub const fn new(t: T) -> Self {
+            Mutex(real::Mutex::new(t))
+        }
+        pub fn into_inner(self) -> LockResult<T> {
+            self.0.into_inner()
+        }
+    }
+
+    impl<T: ?Sized> Mutex<T> {
+        fn addr(&self) -> usize {
+            self as *const Self as *const () as usize
+        }
+
+        pub fn lock(&self) -> LockResult<MutexGuard<'_, T>> {
+            let addr = self.addr();
+            match hooks::get() {
+                None => match self.0.lock() {
+                    Ok(g) => Ok(MutexGuard { inner: Some(g), addr: 0 }),
+                    Err(e) => Err(PoisonError::new(MutexGuard { inner: Some(e.into_inner()), addr: 0 })),
+                },
+                Some(h) => loop {
+                    (h.point)(Op::MutexLock, addr);
+                    match self.0.try_lock() {
+                        Ok(g) => {
+                            (h.acquired)(Op::MutexLock, addr, true);
+                            return Ok(MutexGuard { inner: Some(g), addr });
+                        }
+                        Err(TryLockError::Poisoned(e)) => {
+                            (h.acquired)(Op::MutexLock, addr, true);
+                            return Err(PoisonError::new(MutexGuard { inner: Some(e.into_inner()), addr }));
+                        }
+                        Err(TryLockError::WouldBlock) => (h.blocked)(Op::MutexLock, addr),
+                    }
+                },
+            }
+        }
+
+        pub fn try_lock(&self) -> TryLockResult<MutexGuard<'_, T>> {
+            let addr = self.addr();
+            let h = hooks::get();
+            if let Some(h) = h {
+                (h.point)(Op::MutexTryLock, addr);
+            }
+            let tracked = if h.is_some() { addr } else { 0 };
+            match self.0.try_lock() {
+                Ok(g) => {
+                    if let Some(h) = h {
+                        (h.acquired)(Op::MutexTryLock, addr, true);
+                    }
+                    Ok(MutexGuard { inner: Some(g), addr: tracked })
+                }
+                Err(TryLockError::Poisoned(e)) => {
+                    if let Some(h) = h {
+                        (h.acquired)(Op::MutexTryLock, addr, true);
+                    }
+                    Err(TryLockError::Poisoned(PoisonError::new(MutexGuard { inner: Some(e.into_inner()), addr: tracked })))
+                }
+                Err(TryLockError::WouldBlock) => Err(TryLockError::WouldBlock),
+            }
+        }
+
+        pub fn is_poisoned(&self) -> bool {
+            self.0.is_poisoned()
+        }
+
+        pub fn get_mut(&mut self) -> LockResult<&mut T> {
+            self.0.get_mut()
+        }
+    }
+
+    impl<T: ?Sized> Drop for MutexGuard<'_, T> {
+        fn drop(&mut self) {
+            // release the real lock first, then tell the scheduler
+            self.inner.take();
+            if self.addr != 0 {
+                if let Some(h) = hooks::get() {
+                    (h.released)(Op::MutexUnlock, self.addr);
+                }
+            }
+        }
+    }
+
+    impl<T: ?Sized> Deref for MutexGuard<'_, T> {
+        type Target = T;
+        fn deref(&self) -> &T {
+            self.inner.as_ref().unwrap()
+        }
+    }
+
+    impl<T: ?Sized> DerefMut for MutexGuard<'_, T> {
+        fn deref_mut(&mut self) -> &mut T {
+            self.inner.as_mut().unwrap()
+        }
+    }
+
+    impl<T: ?Sized + fmt::Debug> fmt::Debug for MutexGuard<'_, T> {
+        fn fmt(&self, f: &mut fmt::Formatter<'_>) -> fmt::Result {
+            fmt::Debug::fmt(&**self, f)
+        }
+    }
+
+    impl<T: ?Sized + fmt::Display> fmt::Display for MutexGuard<'_, T> {
+        fn fmt(&self, f: &mut fmt::Formatter<'_>) -> fmt::Result {
+            fmt::Display::fmt(&**self, f)
+        }
+    }
+
+    impl<T: ?Sized + fmt::Debug> fmt::Debug for Mutex<T> {
+        fn fmt(&self, f: &mut fmt::Formatter<'_>) -> fmt::Result {
+            fmt::Debug::fmt(&self.0, f)
+        }
+    }
+
+    impl<T: Default> Default for Mutex<T> {
+        fn default() -> Self {
+            Mutex::new(T::default())
+        }
+    }
+
+    impl<T> From<T> for Mutex<T> {
+        fn from(t: T) -> Self {
+            Mutex::new(t)
+        }
+    }
+
+    // ------------------------------------------------------------------ RwLock
+    pub struct RwLock<T: ?Sized>(real::RwLock<T>);
+
+    pub struct RwLockReadGuard<'a, T: ?Sized + 'a> {
+        inner: Option<real::RwLockReadGuard<'a, T>>,
+        addr: usize,
+    }
+
+    pub struct RwLockWriteGuard<'a, T: ?Sized + 'a> {
+        inner: Option<real::RwLockWriteGuard<'a, T>>,
+        addr: usize,
+    }
+
+    impl<T> RwLock<T> {
+        pub const fn new(t: T) -> Self {
+            RwLock(real::RwLock::new(t))
+        }
+        pub fn into_inner(self) -> LockResult<T> {
+            self.0.into_inner()
+        }
+    }
+
+    impl<T: ?Sized> RwLock<T> {
+        fn addr(&self) -> usize {
+            self as *const Self as *const () as usize
+        }
+
+        pub fn read(&self) -> LockResult<RwLockReadGuard<'_, T>> {
+            let addr = self.addr();
+            match hooks::get() {
+                None => match self.0.read() {
+                    Ok(g) => Ok(RwLockReadGuard { inner: Some(g), addr: 0 }),
+                    Err(e) => Err(PoisonError::new(RwLockReadGuard { inner: Some(e.into_inner()), addr: 0 })),
+                },
+                Some(h) => loop {
+                    (h.point)(Op::RwRead, addr);
+                    match self.0.try_read() {
+                        Ok(g) => {
+                            (h.acquired)(Op::RwRead, addr, false);
+                            return Ok(RwLockReadGuard { inner: Some(g), addr });
+                        }
+                        Err(TryLockError::Poisoned(e)) => {
+                            (h.acquired)(Op::RwRead, addr, false);
+                            return Err(PoisonError::new(RwLockReadGuard { inner: Some(e.into_inner()), addr }));
+                        }
+                        Err(TryLockError::WouldBlock) => (h.blocked)(Op::RwRead, addr),
+                    }
+                },
+            }
+        }
+
+        pub fn write(&self) -> LockResult<RwLockWriteGuard<'_, T>> {
+            let addr = self.addr();
+            match hooks::get() {
+                None => match self.0.write() {
+                    Ok(g) => Ok(RwLockWriteGuard { inner: Some(g), addr: 0 }),
+                    Err(e) => Err(PoisonError::new(RwLockWriteGuard { inner: Some(e.into_inner()), addr: 0 })),
+                },
+                Some(h) => loop {
+                    (h.point)(Op::RwWrite, addr);
+                    match self.0.try_write() {
+                        Ok(g) => {
+                            (h.acquired)(Op::RwWrite, addr, true);
+                            return Ok(RwLockWriteGuard { inner: Some(g), addr });
+                        }
+                        Err(TryLockError::Poisoned(e)) => {
+                            (h.acquired)(Op::RwWrite, addr, true);
+                            return Err(PoisonError::new(RwLockWriteGuard { inner: Some(e.into_inner()), addr }));
+                        }
+                        Err(TryLockError::WouldBlock) => (h.blocked)(Op::RwWrite, addr),
+                    }
+                },
+            }
+        }
+
+        pub fn try_read(&self) -> TryLockResult<RwLockReadGuard<'_, T>> {
+            let addr = self.addr();
+            let h = hooks::get();
+            if let Some(h) = h {
+                (h.point)(Op::RwTryRead, addr);
+            }
+            let tracked = if h.is_some() { addr } else { 0 };
+            match self.0.try_read() {
+                Ok(g) => {
+                    if let Some(h) = h {
+                        (h.acquired)(Op::RwTryRead, addr, false);
+                    }
+                    Ok(RwLockReadGuard { inner: Some(g), addr: tracked })
+                }
+                Err(TryLockError::Poisoned(e)) => {
+                    if let Some(h) = h {
+                        (h.acquired)(Op::RwTryRead, addr, false);
+                    }
+                    Err(TryLockError::Poisoned(PoisonError::new(RwLockReadGuard { inner: Some(e.into_inner()), addr: tracked })))
+                }
+                Err(TryLockError::WouldBlock) => Err(TryLockError::WouldBlock),
+            }
+        }
+
+        pub fn try_write(&self) -> TryLockResult<RwLockWriteGuard<'_, T>> {
+            let addr = self.addr();
+            let h = hooks::get();
+            if let Some(h) = h {
+                (h.point)(Op::RwTryWrite, addr);
+            }
+            let tracked = if h.is_some() { addr } else { 0 };
+            match self.0.try_write() {
+                Ok(g) => {
+                    if let Some(h) = h {
+                        (h.acquired)(Op::RwTryWrite, addr, true);
+                    }
+                    Ok(RwLockWriteGuard { inner: Some(g), addr: tracked })
+                }
+                Err(TryLockError::Poisoned(e)) => {
+                    if let Some(h) = h {
+                        (h.acquired)(Op::RwTryWrite, addr, true);
+                    }
+                    Err(TryLockError::Poisoned(PoisonError::new(RwLockWriteGuard { inner: Some(e.into_inner()), addr: tracked })))
+                }
+                Err(TryLockError::WouldBlock) => Err(TryLockError::WouldBlock),
+            }
+        }
+
+        pub fn is_poisoned(&self) -> bool {
+            self.0.is_poisoned()
+        }
+
+        pub fn get_mut(&mut self) -> LockResult<&mut T> {
+            self.0.get_mut()
+        }
+    }
+
+    impl<T: ?Sized> Drop for RwLockReadGuard<'_, T> {
+        fn drop(&mut self) {
+            self.inner.take();
+            if self.addr != 0 {
+                if let Some(h) = hooks::get() {
+                    (h.released)(Op::RwUnlockRead, self.addr);
+                }
+            }
+        }
+    }
+
+    impl<T: ?Sized> Drop for RwLockWriteGuard<'_, T> {
+        fn drop(&mut self) {
+            self.inner.take();
+            if self.addr != 0 {
+                if let Some(h) = hooks::get() {
+                    (h.released)(Op::RwUnlockWrite, self.addr);
+                }
+            }
+        }
+    }
+
+    impl<T: ?Sized> Deref for RwLockReadGuard<'_, T> {
+        type Target = T;
+        fn deref(&self) -> &T {
+            self.inner.as_ref().unwrap()
+        }
+    }
+
+    impl<T: ?Sized> Deref for RwLockWriteGuard<'_, T> {
+        type Target = T;
+        fn deref(&self) -> &T {
+            self.inner.as_ref().unwrap()
+        }
+    }
+
+    impl<T: ?Sized> DerefMut for RwLockWriteGuard<'_, T> {
+        fn deref_mut(&mut self) -> &mut T {
+            self.inner.as_mut().unwrap()
+        }
+    }
+
+    impl<T: ?Sized + fmt::Debug> fmt::Debug for RwLockReadGuard<'_, T> {
+        fn fmt(&self, f: &mut fmt::Formatter<'_>) -> fmt::Result {
+            fmt::Debug::fmt(&**self, f)
+        }
+    }
+
+    impl<T: ?Sized + fmt::Debug> fmt::Debug for RwLockWriteGuard<'_, T> {
+        fn fmt(&self, f: &mut fmt::Formatter<'_>) -> fmt::Result {
+            fmt::Debug::fmt(&**self, f)
+        }
+    }
+
+    impl<T: ?Sized + fmt::Debug> fmt::Debug for RwLock<T> {
+        fn fmt(&self, f: &mut fmt::Formatter<'_>) -> fmt::Result {
+            fmt::Debug::fmt(&self.0, f)
+        }
+    }
+
+    impl<T: Default> Default for RwLock<T> {
+        fn default() -> Self {
+            RwLock::new(T::default())
+        }
+    }
+
+    // ------------------------------------------------------------------ Once
+    /// `call_once` runs under a schedulable mutex, so a thread descheduled inside the
+    /// initialiser never leaves another one parked in a real `Once`.
+    pub struct Once {
+        inner: real::Once,
+        gate: Mutex<()>,
+    }
+
+    impl Once {
+        pub const fn new() -> Once {
+            Once { inner: real::Once::new(), gate: Mutex::new(()) }
+        }
+        pub fn call_once<F: FnOnce()>(&self, f: F) {
+            if self.inner.is_completed() {
+                return;
+            }
+            let _g = self.gate.lock().unwrap_or_else(|e| e.into_inner());
+            self.inner.call_once(f);
+        }
+        pub fn is_completed(&self) -> bool {
+            self.inner.is_completed()
+        }
+    }
+
+    impl fmt::Debug for Once {
+        fn fmt(&self, f: &mut fmt::Formatter<'_>) -> fmt::Result {
+            f.write_str("Once { .. }")
+        }
+    }
+
+    // ------------------------------------------------------------------ atomics
+    pub mod atomic {
+        pub use ::std::sync::atomic::*;
+
+        use crate::hooks::{self, Op};
+        use ::std::fmt;
+        use ::std::sync::atomic as real;
+
+        macro_rules! wrap_atomic {
+            ($name:ident, $prim:ty) => {
+                #[derive(Default)]
+                pub struct $name(real::$name);
+
+                impl $name {
+                    pub const fn new(v: $prim) -> Self {
+                        $name(real::$name::new(v))
+                    }
+                    #[inline]
+                    fn pt(&self, op: Op) {
+                        if let Some(h) = hooks::get() {
+                            (h.point)(op, self as *const Self as usize);
+                        }
+                    }
+                    pub fn load(&self, o: Ordering) -> $prim {
+                        self.pt(Op::AtomicLoad);
+                        self.0.load(o)
+                    }
+                    pub fn store(&self, v: $prim, o: Ordering) {
+                        self.pt(Op::AtomicStore);
+                        self.0.store(v, o)
+                    }
+                    pub fn swap(&self, v: $prim, o: Ordering) -> $prim {
+                        self.pt(Op::AtomicRmw);
+                        self.0.swap(v, o)
+                    }
+                    pub fn compare_exchange(&self, c: $prim, n: $prim, s: Ordering, f: Ordering) -> Result<$prim, $prim> {
+                        self.pt(Op::AtomicCas);
+                        self.0.compare_exchange(c, n, s, f)
+                    }
+                    pub fn compare_exchange_weak(&self, c: $prim, n: $prim, s: Ordering, f: Ordering) -> Result<$prim, $prim> {
+                        self.pt(Op::AtomicCas);
+                        // never fail spuriously under the scheduler
+                        self.0.compare_exchange(c, n, s, f)
+                    }
+                    pub fn get_mut(&mut self) -> &mut $prim {
+                        self.0.get_mut()
+                    }
+                    pub fn into_inner(self) -> $prim {
+                        self.0.into_inner()
+                    }
+                }
+
+                impl fmt::Debug for $name {
+                    fn fmt(&self, f: &mut fmt::Formatter<'_>) -> fmt::Result {
+                        fmt::Debug::fmt(&self.0, f)
+                    }
+                }
+
+                impl From<$prim> for $name {
+                    fn from(v: $prim) -> Self {
+                        $name::new(v)
+                    }
+                }
+            };
+        }
+
+        macro_rules! wrap_atomic_int {
+            ($name:ident, $prim:ty) => {
+                wrap_atomic!($name, $prim);
+                impl $name {
+                    pub fn fetch_add(&self, v: $prim, o: Ordering) -> $prim {
+                        self.pt(Op::AtomicRmw);
+                        self.0.fetch_add(v, o)
+                    }
+                    pub fn fetch_sub(&self, v: $prim, o: Ordering) -> $prim {
+                        self.pt(Op::AtomicRmw);
+                        self.0.fetch_sub(v, o)
+                    }
+                    pub fn fetch_max(&self, v: $prim, o: Ordering) -> $prim {
+                        self.pt(Op::AtomicRmw);
+                        self.0.fetch_max(v, o)
+                    }
+                    pub fn fetch_min(&self, v: $prim, o: Ordering) -> $prim {
+                        self.pt(Op::AtomicRmw);
+                        self.0.fetch_min(v, o)
+                    }
+                }
+            };
+        }
+
+        wrap_atomic_int!(AtomicU64, u64);
+        wrap_atomic_int!(AtomicU32, u32);
+        wrap_atomic_int!(AtomicI64, i64);
+        wrap_atomic_int!(AtomicI32, i32);
+        wrap_atomic_int!(AtomicUsize, usize);
+        wrap_atomic!(AtomicBool, bool);
+    }
+}
